@@ -1907,6 +1907,10 @@ def c12_oracle(prog, meta, impl, model):
                 o = prog["ops"][i]["o"]
                 if k and ref_get(k, o)[0] == "found" and not _under_wrapper(prog):
                     out.append(("a missing-option failure names a key that is present", i, {"key": k, "options": o}))
+                # the key named is one the graph or the options refer to (an Option's key, a template reference)
+                if k and not k.startswith(":") and k not in json.dumps([prog["nodes"], o, prog.get("dss", [])]):
+                    out.append(("a missing-option failure names a key that neither the graph nor the options mention", i,
+                                {"key": k, "options": o, "error": fr}))
         if is_err(a) and meta.get("root_cid") is not None:
             st = [c for c in a.get("cache", []) if c[0] == meta["root_cid"] and c[1] == "set"]
             if st:
